@@ -6,6 +6,12 @@ import vgen as G
 # of the driver inside one of their cases is a violation of the property
 CRASH_PROPS = {"C06", "C07", "C11", "C16", "C17", "C18"}
 
+APIWALK_NOTE = (" Stage 'apiwalk': 300 (quick) / 20000 (thorough) seeded random API sessions of 60 operations over one "
+                "keyring of nine keys, two builders, two checkers and four token slots (setkey, header/claim edits, "
+                "iat/offsets/leeways/expected claims, callbacks selecting keys or editing claims, clock and provider "
+                "changes, generate and verify of slot and forged tokens, each also on a fresh twin), judged by this "
+                "property's clauses.")
+
 ASSUME_COMMON = [
     "TLC evaluates spec/Trace.tla faithfully; ndJsonDeserialize reads the driver's events as written",
     "the driver (harness/jwtdrv.c) concretises descriptors as documented and logs results unmodified; jansson and OpenSSL are trusted for decoding and for the independent signer",
@@ -75,7 +81,7 @@ PROPS["C15"] = dict(
 
 PROPS["C02"] = dict(
     level="model_checking", exhaustive=True,
-    stages=lambda tier, seed: [mc("matrix", "MC_C02", "MC_C02_%s.cfg" % tier)],
+    stages=lambda tier, seed: [mc("matrix", "MC_C02", "MC_C02_%s.cfg" % tier), gen("apiwalk", G.api_walks(300 if tier == "quick" else 20000, 60))],
     rule="finite matrix enumerated by TLC from MC_C02: (A) configured alg x key (absent, or key type x alg attribute "
          "incl. none and unknown) x {setkey, callback} on checker and builder; (B) every admitted checker "
          "configuration x 23 header alg spellings (14 names, none/None/NONE, case and padding variants, unknown, "
@@ -96,7 +102,7 @@ PROPS["C02"] = dict(
 
 PROPS["C03"] = dict(
     level="model_checking", exhaustive=True,
-    stages=lambda tier, seed: [mc("matrix", "MC_C03", "MC_C03_%s.cfg" % tier)],
+    stages=lambda tier, seed: [mc("matrix", "MC_C03", "MC_C03_%s.cfg" % tier), gen("apiwalk", G.api_walks(300 if tier == "quick" else 20000, 60))],
     rule="finite matrix from MC_C03: checker set-ups (key loaded but not set / set with or without explicit alg; key "
          "with and without alg attribute) x callback {none, empty, sets key, sets alg, sets both, key + alg none} x "
          "header alg {none, None, NONE, the matching algorithm, missing} x signature {empty, valid, garbage} x shape "
@@ -153,7 +159,7 @@ PROPS["C09"] = dict(
 
 PROPS["C14"] = dict(
     level="model_checking", exhaustive=True,
-    stages=lambda tier, seed: [mc("causes", "MC_C14", "MC_C14_%s.cfg" % tier)],
+    stages=lambda tier, seed: [mc("causes", "MC_C14", "MC_C14_%s.cfg" % tier), gen("apiwalk", G.api_walks(300 if tier == "quick" else 20000, 60))],
     rule="one script per failure cause from MC_C14: 40 failing token classes (NULL/empty, missing dots, header not "
          "base64 / not JSON / not an object / without or with non-string or unknown alg, payload not base64 / not "
          "JSON, unsigned, bit-flipped / garbage / non-base64 / truncated / wrong-key / wrong-alg signature, expired, "
@@ -197,7 +203,7 @@ PROPS["C04"] = dict(
 
 PROPS["C19"] = dict(
     level="model_checking", exhaustive=True,
-    stages=lambda tier, seed: [mc("progs", "MC_C19", "MC_C19_%s.cfg" % tier)],
+    stages=lambda tier, seed: [mc("progs", "MC_C19", "MC_C19_%s.cfg" % tier), gen("apiwalk", G.api_walks(300 if tier == "quick" else 20000, 60))],
     rule="from MC_C19: all callback programs of up to 2 (quick) / 3 (thorough) steps over 16 header/claim steps "
          "(delete exp/nbf/iss/aud, delete all claims, delete all headers, delete/replace header alg, replace exp/nbf "
          "with passing or failing values, set/replace iss, add aud), plus control steps (return 1, select key and/or "
@@ -217,7 +223,7 @@ PROPS["C19"] = dict(
 
 PROPS["C13"] = dict(
     level="model_checking", exhaustive=True,
-    stages=lambda tier, seed: [mc("seq", "MC_C13", "MC_C13_%s.cfg" % tier)],
+    stages=lambda tier, seed: [mc("seq", "MC_C13", "MC_C13_%s.cfg" % tier), gen("apiwalk", G.api_walks(300 if tier == "quick" else 20000, 60))],
     rule="from MC_C13: all sequences of length 4 (quick) / 5 (thorough) over 13 checker elements (verify valid, bad "
          "signature, expired, no dot, header not JSON, no alg, NULL, empty, algorithm mismatch, callback failing then "
          "restored, callback selecting another key for one call, refused setkey, error_clear) on a checker with "
@@ -238,9 +244,9 @@ PROPS["C13"] = dict(
 
 PROPS["C10"] = dict(
     level="model_checking", exhaustive=True,
-    stages=lambda tier, seed: [mc("seq", "MC_C10", "MC_C10_%s.cfg" % tier)],
-    rule="from MC_C10: all sequences of 3 builder configuration calls over an alphabet of 17 (quick) / 33 (thorough) "
-         "calls - header set (typ, user-set alg, kid) and delete, claim set (same-named iat/exp/nbf, sub, bool) and "
+    stages=lambda tier, seed: [mc("seq", "MC_C10", "MC_C10_%s.cfg" % tier), gen("apiwalk", G.api_walks(300 if tier == "quick" else 20000, 60))],
+    rule="from MC_C10: all sequences of 3 builder configuration calls over an alphabet of 19 (quick) / 35 (thorough) "
+         "calls - header set (typ as string and as integer, user-set alg as string and as boolean, kid) and delete, claim set (same-named iat/exp/nbf, sub, bool) and "
          "delete, enable_iat 0/1, time_offset for exp/nbf in {-5, 0, 1, 60, 3600} and for an invalid claim, setkey "
          "(HS256 oct, RS256 private, RS256 public-only, ES256, none, remove), setcb with two mutating programs and "
          "removal, clock changes - with a generate after every call, plus all pairs over the full alphabet. Every "
@@ -376,7 +382,7 @@ PROPS["C08"] = dict(
          "oct 1..512 bytes) x private and public form x metadata (alg matching / none / unknown / foreign, kid, use "
          "sig/enc/other, key_ops subsets incl. unknown names) with the default encoding, and x integer encoding "
          "(fixed width, minimal, zero-padded by 1 and 3 bytes) x extra-member set (none, members of other key types, "
-         "unknown members) with plain metadata; as a single JWK and inside a JWKS. Stage 'fresh' repeats every 9th "
+         "unknown members) with plain metadata; as a single JWK and inside a JWKS; and 'history' cells: each of five defective keys (point not on the curve, unknown curve, short coordinate, incomplete RSA private key, short OKP key) imported before a well-formed key of every type - in the same set and by an earlier call on the same thread. Stage 'fresh' repeats every 9th "
          "(quick) / every (thorough, 12 times) cell with key material generated on the spot (OpenSSL keygen, fresh "
          "oct bytes). The driver exports with its own exporter, parses the item's PEM with OpenSSL and compares "
          "public and private components with the exported key. distinct = distinct scripts.",
@@ -481,3 +487,16 @@ PROPS["C20"] = dict(
     level_note="Fixture keys (the leading-zero EC keys are committed fixtures so that the width clause is exercised on every run); jwk2key's file naming and overwrite options are not modelled.",
     design_ref="DESIGN.md section 7, C20",
 )
+
+
+# non-gating: whole-API random walks validated with every clause (spec hygiene)
+PROPS["WALK"] = dict(
+    level="exploration", unclaimed="not a property: whole-API random walks used with --trace-prop FULL to keep the specification honest",
+    stages=lambda tier, seed: [gen("api", G.api_walks(1500 if tier == "quick" else 50000, 60))],
+    rule="random API sessions", assumptions=ASSUME_COMMON, level_text="-", level_note="-",
+)
+
+
+for _p in ("C02", "C03", "C10", "C13", "C14", "C19"):
+    PROPS[_p]["rule"] += APIWALK_NOTE
+    PROPS[_p]["exhaustive"] = False
